@@ -185,6 +185,23 @@ impl<'a> Analyzer<'a> {
     seen
   }
 
+  /// Like `reach`, but ignoring the recorded require edges of the tasks in `excluded` (bitmask).
+  fn reach_excluding(&self, from: Tid, excluded: u32) -> u32 {
+    let mut seen = 0u32;
+    let mut stack = vec![from];
+    while let Some(t) = stack.pop() {
+      if excluded & bit(t) != 0 { continue; }
+      let mut m = self.req_targets(t) & !seen;
+      seen |= m;
+      while m != 0 {
+        let b = m.trailing_zeros() as Tid;
+        m &= m - 1;
+        stack.push(b);
+      }
+    }
+    seen
+  }
+
   /// Is dependency `d` accepted by its own checker now? `None` = the checker errs.
   fn dep_accepted(&self, d: &Dep, cells: &[Cell; MAX_RES], fail: &[bool; MAX_RES]) -> Option<bool> {
     match d {
@@ -824,9 +841,11 @@ impl<'a> Analyzer<'a> {
         if is_top_down || in_scope_bu {
           // Content/outputs are compared with a clean build only under exact write checkers (a writer that declares
           // "I only care that the file exists" legitimately lets a foreign content stand).
-          let judge_c01 = self.class.wf() && self.exact_writes();
+          let m = m1::build(self.prog, &st.pre_cells, &roots);
+          // C19 also covers programs that have a violation in SOME state: judged whenever a from-scratch build of
+          // the same roots in the current state is free of any flag.
+          let judge_c01 = self.exact_writes() && (self.class.wf() || (self.prop == Prop::C19 && !m.flags.any() && !m.aborted));
           if judge_c01 {
-            let m = m1::build(self.prog, &st.pre_cells, &roots);
             let expect: Vec<u8> = m.outputs.iter().map(|o| o.unwrap_or(255)).collect();
             if *outs != expect {
               self.add(s, &[Prop::C01, Prop::C18, Prop::C19], "output", "",
@@ -880,17 +899,34 @@ impl<'a> Analyzer<'a> {
         }
         let ob = s.obligation.take();
         // Does a conflict of the reported kind exist over the recorded (shadow) edges, stale ones included?
-        let conflict_recorded = match s.call.last() {
+        // `doomed`: tasks whose validation is in progress and has ALREADY found an inconsistent dependency: a correct
+        // implementation stops validating them at that point and drops their edges before anything else executes, so
+        // their recorded edges can no longer justify an abort (not even as the recorded stale-edge finding).
+        let mut doomed: u32 = 0;
+        for f in &s.frames {
+          if let Frame::Validate { task, inconsistent: true, had_output: true, .. } = f { doomed |= bit(*task); }
+        }
+        let (conflict_recorded, conflict_not_doomed) = match s.call.last() {
           Some(CallRec::Read(c, r)) => {
             let reach = self.reach(*c);
-            kind == PanicKind::Hidden && self.writers_of(*r).iter().any(|w| *w != *c && reach & bit(*w) == 0)
+            let ws: Vec<Tid> = self.writers_of(*r).into_iter().filter(|w| *w != *c && reach & bit(*w) == 0).collect();
+            (kind == PanicKind::Hidden && !ws.is_empty(), ws.iter().any(|w| doomed & bit(*w) == 0))
           }
           Some(CallRec::Write(c, r, _)) => {
-            if kind == PanicKind::Overlap { self.writers_of(*r).iter().any(|w| *w != *c) }
-            else { kind == PanicKind::Hidden && self.readers_of(*r).iter().any(|x| *x != *c && self.reach(*x) & bit(*c) == 0) }
+            if kind == PanicKind::Overlap {
+              let ws: Vec<Tid> = self.writers_of(*r).into_iter().filter(|w| *w != *c).collect();
+              (!ws.is_empty(), ws.iter().any(|w| doomed & bit(*w) == 0))
+            } else {
+              let xs: Vec<Tid> = self.readers_of(*r).into_iter().filter(|x| *x != *c && self.reach(*x) & bit(*c) == 0).collect();
+              (kind == PanicKind::Hidden && !xs.is_empty(), xs.iter().any(|x| doomed & bit(*x) == 0))
+            }
           }
-          Some(CallRec::Req(c, u)) => kind == PanicKind::Cycle && (*c == *u || self.reach(*u) & bit(*c) != 0 || s.exec_stack.contains(u)),
-          None => false,
+          Some(CallRec::Req(c, u)) => {
+            let any = *c == *u || self.reach(*u) & bit(*c) != 0 || s.exec_stack.contains(u);
+            let without_doomed = *c == *u || (doomed & bit(*u) == 0 && self.reach_excluding(*u, doomed) & bit(*c) != 0) || s.exec_stack.contains(u);
+            (kind == PanicKind::Cycle && any, without_doomed)
+          }
+          None => (false, false),
         };
         if let Some(ob) = &ob {
           // A different diagnosis is accepted when a conflict of that kind is recorded as well (coexisting
@@ -914,10 +950,10 @@ impl<'a> Analyzer<'a> {
           if !justified {
             // Stale-edge finding? The conflict must exist over the recorded (shadow) edges.
             let conflict = conflict_recorded;
-            let key = if conflict { format!("C20/stale-edge/{}", site) } else { String::new() };
+            let key = if conflict && conflict_not_doomed { format!("C20/stale-edge/{}", site) } else { String::new() };
             self.add(s, &[Prop::C20, Prop::C19], "unjustified-abort", &key,
-              format!("build aborted with '{}' (site {}), but a from-scratch build of all known tasks {:?} in cells {:?} has no cycle, hidden dependency or overlapping write; conflict over recorded edges: {}",
-                p.msg, site, tasks, &st.pre_cells[..self.prog.n_res as usize], conflict));
+              format!("build aborted with '{}' (site {}), but a from-scratch build of all known tasks {:?} in cells {:?} has no cycle, hidden dependency or overlapping write; conflict over recorded edges: {}; a conflicting edge belongs to a task not already known to be inconsistent: {}",
+                p.msg, site, tasks, &st.pre_cells[..self.prog.n_res as usize], conflict, conflict_not_doomed));
           }
         }
         let _ = (pre_mixed, pre_post_abort);
